@@ -25,7 +25,10 @@ type c10Row struct {
 	A  *int64
 	B  int64
 	S  string
-	P  int64 `sql:",implicitnull"` // C07: the zero value is stored as NULL, and a filter on 0 selects the NULLs
+	P  int64  `sql:",implicitnull"` // C07: the zero value is stored as NULL, and a filter on 0 selects the NULLs
+	T  string // C07: T and U hold strings with blanks (argument lists that print alike), Y a blob that may be empty
+	U  string
+	Y  []byte
 }
 
 // c10RowJ: C10's table has a JSON column on top (C07 shares c10Row and its four columns)
@@ -56,7 +59,7 @@ type c10BadValuer struct{}
 
 func (c10BadValuer) Value() (driver.Value, error) { return nil, errors.New("c10: value rejected") }
 
-var c10ColID = map[string]int{"id": 0, "a": 1, "b": 2, "s": 3, "j": 4, "p": 5, "t": 6, "u": 7}
+var c10ColID = map[string]int{"id": 0, "a": 1, "b": 2, "s": 3, "j": 4, "p": 5, "t": 6, "u": 7, "y": 8}
 
 // c10Val: a filter value: payload and the Go representation it travels in
 type c10Val struct {
@@ -93,6 +96,11 @@ func (v c10Val) goValue() interface{} {
 		return c10BadValuer{}
 	case "sp":
 		return c10SpaceStrs[int(v.V)%len(c10SpaceStrs)]
+	case "bytes":
+		if v.V == 0 {
+			return []byte{}
+		}
+		return []byte("x")
 	}
 	return v.V
 }
@@ -101,7 +109,7 @@ func (v c10Val) enc() interface{} {
 	if v.Rep == "nil" || v.Rep == "nilptr" {
 		return nil
 	}
-	ty := map[string]int{"int64": 0, "int": 1, "ptr": 2, "named": 3, "string": 4, "strptr": 5, "json": 6, "jsonptr": 7, "sp": 4}[v.Rep]
+	ty := map[string]int{"int64": 0, "int": 1, "ptr": 2, "named": 3, "string": 4, "strptr": 5, "json": 6, "jsonptr": 7, "sp": 4, "bytes": 8}[v.Rep]
 	if v.Rep == "sp" {
 		return map[string]interface{}{"ty": ty, "v": 100 + v.V%int64(len(c10SpaceStrs))}
 	}
